@@ -13,9 +13,16 @@ fn kind(c: u8) -> CommonNearestNeighbour {
     match c { 0 => CommonNearestNeighbour::LinearSearch, 1 => CommonNearestNeighbour::KdTree, _ => CommonNearestNeighbour::BallTree }
 }
 
+// A wrongly successful build must be reported as a violation, not time out: the returned Box<dyn NearestNeighbourIndex> is
+// never dropped (its drop glue dispatches to every index kind, incl. the recursive k-d tree drop: unbounded unwinding).
+fn classify<'a>(r: Result<NearestNeighbourBox<'a, f32>, BuildError>) -> u8 {
+    match r { Ok(b) => { core::mem::forget(b); 0 } Err(BuildError::ZeroDimension) => 1, Err(BuildError::EmptyLeaf) => 2 }
+}
+
 // zero-column batch, any number of rows n <= 3, any leaf size: never Ok
 // @unit class=complete tier=quick mem=light timeout=300 fns=linfa_nn::LinearSearch::from_batch_with_leaf_size,linfa_nn::KdTree::from_batch_with_leaf_size,linfa_nn::BallTree::from_batch_with_leaf_size,linfa_nn::CommonNearestNeighbour::from_batch_with_leaf_size,linfa_nn::LinearSearchIndex::new,linfa_nn::KdTreeIndex::new,linfa_nn::BallTreeIndex::new
 #[kani::proof]
+#[kani::unwind(5)]
 #[kani::stub(alloc::fmt::format, fmt_stub)]
 fn c07_err_zero_dimension() {
     let n: usize = kani::any();
@@ -24,25 +31,17 @@ fn c07_err_zero_dimension() {
     let c: u8 = kani::any();
     kani::assume(c < 3);
     let batch: Array2<f32> = Array2::zeros((n, 0));
-    let r = kind(c).from_batch_with_leaf_size(&batch, leaf, L2Dist);
-    match r {
-        Ok(_) => assert!(false),
-        Err(BuildError::ZeroDimension) => {}
-        Err(BuildError::EmptyLeaf) => assert!(leaf == 0),
-    }
+    let r = classify(kind(c).from_batch_with_leaf_size(&batch, leaf, L2Dist));
+    assert!(r == 1 || (r == 2 && leaf == 0));
     // the concrete kinds directly (not through the dispatch enum)
-    let r2 = match c {
+    let r2 = classify(match c {
         0 => LinearSearch::new().from_batch_with_leaf_size(&batch, leaf, L2Dist),
         1 => KdTree::new().from_batch_with_leaf_size(&batch, leaf, L2Dist),
         _ => BallTree::new().from_batch_with_leaf_size(&batch, leaf, L2Dist),
-    };
-    match r2 {
-        Ok(_) => assert!(false),
-        Err(BuildError::ZeroDimension) => {}
-        Err(BuildError::EmptyLeaf) => assert!(leaf == 0),
-    }
+    });
+    assert!(r2 == 1 || (r2 == 2 && leaf == 0));
     // default leaf size: from_batch
-    assert!(matches!(kind(c).from_batch(&batch, L1Dist), Err(BuildError::ZeroDimension)));
+    assert!(classify(kind(c).from_batch(&batch, L1Dist)) == 1);
     kani::cover!(c == 0 && leaf > 0 && n == 0);
     kani::cover!(c == 1 && leaf > 0 && n == 3);
     kani::cover!(c == 2 && leaf > 0 && n == 1);
@@ -52,19 +51,20 @@ fn c07_err_zero_dimension() {
 // leaf size 0 on an otherwise well-formed batch (1 x 1, any value): EmptyLeaf for every kind
 // @unit class=complete tier=quick mem=light timeout=300 fns=linfa_nn::LinearSearch::from_batch_with_leaf_size,linfa_nn::KdTree::from_batch_with_leaf_size,linfa_nn::BallTree::from_batch_with_leaf_size,linfa_nn::KdTreeIndex::new,linfa_nn::BallTreeIndex::new
 #[kani::proof]
+#[kani::unwind(5)]
 #[kani::stub(alloc::fmt::format, fmt_stub)]
 fn c07_err_empty_leaf() {
     let v: f32 = kani::any();
     let c: u8 = kani::any();
     kani::assume(c < 3);
     let batch: Array2<f32> = Array2::from_elem((1, 1), v);
-    assert!(matches!(kind(c).from_batch_with_leaf_size(&batch, 0, L2Dist), Err(BuildError::EmptyLeaf)));
-    let r2 = match c {
+    assert!(classify(kind(c).from_batch_with_leaf_size(&batch, 0, L2Dist)) == 2);
+    let r2 = classify(match c {
         0 => LinearSearch.from_batch_with_leaf_size(&batch, 0, L1Dist),
         1 => KdTree.from_batch_with_leaf_size(&batch, 0, L1Dist),
         _ => BallTree.from_batch_with_leaf_size(&batch, 0, L1Dist),
-    };
-    assert!(matches!(r2, Err(BuildError::EmptyLeaf)));
+    });
+    assert!(r2 == 2);
     kani::cover!(c == 0);
     kani::cover!(c == 1);
     kani::cover!(c == 2 && v.is_nan());
@@ -109,9 +109,9 @@ fn c07_build_ok_linear() {
     let v: [f32; 2] = kani::any();
     let leaf: usize = kani::any();
     let batch: Array2<f32> = Array2::from_shape_vec((1, 2), vec![v[0], v[1]]).unwrap();
-    let r = LinearSearch.from_batch_with_leaf_size(&batch, leaf, L2Dist);
-    assert!(r.is_ok() == (leaf >= 1));
-    if let Err(e) = r { assert!(matches!(e, BuildError::EmptyLeaf)); }
+    let r = classify(LinearSearch.from_batch_with_leaf_size(&batch, leaf, L2Dist));
+    assert!((r == 0) == (leaf >= 1));
+    assert!(r == 0 || r == 2);
     kani::cover!(leaf == 1);
     kani::cover!(leaf == 0);
 }
